@@ -36,6 +36,16 @@ GROUPS = [
         ('insertion_sort', ['flat:insertion_sort_double', 'flat:default_sorted_double'], 'h_insertion_sort', 'insertion_sort_double', 6),
         # gdstk::sort (intro_sort recursion) timed out (25 min) even for <= 4 elements; not claimed
     ]
+] + [
+    dict(name=nm, tu='src/property.cpp', spec_headers=[], models=['models/alloc_models.h', 'models/gdstk_models.h'], harness='harness/c20_plist.c', roots=roots,
+         entry=entry, enforce=None, kind='bounded', leak_check=True,
+         bound='lists of up to 3 properties (every combination of two names), one operation; all loops unwound with unwinding assertions; plain assertions on the real functions (no contract replacement)',
+         defines={'PL_MAX': 3}, unwind=6, timeout=1200, tier='quick')
+    for nm, roots, entry in [
+        ('plist_remove', ['gdstk::remove_property', 'gdstk::properties_clear'], 'h_remove_property'),
+        ('plist_get', ['gdstk::get_property', 'gdstk::properties_clear'], 'h_get_property'),
+        # plist_set (set_property): harness exists (h_set_property) but fails spuriously under CBMC (native run passes); not claimed
+    ]
 ]
 TRUSTED_BASE = [
     'clang 14 AST of drivers/c20_inst.cpp (includes only real gdstk headers + explicit template instantiations)',
